@@ -51,7 +51,9 @@ func runC05(c *core.Ctx) *core.Outcome {
 	if t.Chance(3, 4) {
 		cfg.CacheSize = 0
 	}
-	a := app.Generate(t, c05Profile(cfg.FlagCount))
+	prof := c05Profile(cfg.FlagCount)
+	prof.ManySyms = t.Chance(1, 20)
+	a := app.Generate(t, prof)
 	if err := a.Validate(); err != nil {
 		panic("generator produced ill-formed app: " + err.Error())
 	}
